@@ -204,7 +204,7 @@ func store(arr, idx, v Term) Term { return mk(arr.Sort, "store", arr, idx, v) }
 
 func sym(name string) string {
 	for _, c := range name {
-		if !(c >= 'a' && c <= 'z' || c >= 'A' && c <= 'Z' || c >= '0' && c <= '9' || c == '_' || c == '.' || c == '!' || c == '$' || c == '@' || c == '#' || c == '-' || c == '^' || c == '~' || c == '%' || c == '&' || c == '*' || c == '+' || c == '/' || c == '<' || c == '=' || c == '>' || c == '?') {
+		if !(c >= 'a' && c <= 'z' || c >= 'A' && c <= 'Z' || c >= '0' && c <= '9' || c == '_' || c == '.' || c == '!' || c == '$' || c == '@' || c == '-' || c == '^' || c == '~' || c == '%' || c == '&' || c == '*' || c == '+' || c == '/' || c == '<' || c == '=' || c == '>' || c == '?') {
 			return "|" + strings.NewReplacer("|", "!", "\\", "!").Replace(name) + "|"
 		}
 	}
@@ -278,6 +278,23 @@ func (s *Script) assume(t Term) {
 
 func (s *Script) comment(c string) {
 	s.lines = append(s.lines, "; "+strings.ReplaceAll(c, "\n", " "))
+}
+
+// cut removes the lines added since mark m and returns them (used for facts
+// that are local to one obligation). Symbols declared in the removed lines
+// are forgotten so that they are declared again if needed later.
+func (s *Script) cut(m int) []string {
+	out := append([]string{}, s.lines[m:]...)
+	s.lines = s.lines[:m]
+	for _, ln := range out {
+		if strings.HasPrefix(ln, "(declare-fun ") || strings.HasPrefix(ln, "(define-fun ") {
+			f := strings.Fields(ln)
+			if len(f) > 1 {
+				delete(s.declared, f[1])
+			}
+		}
+	}
+	return out
 }
 
 func (s *Script) prefix(upto int) string {
